@@ -226,7 +226,14 @@ fn choose(_context: Context, n: &str, alphabet: &str) -> FunctionResult {
 }
 
 fn clean(_context: Context, path: &str) -> FunctionResult {
-  Ok(Path::new(path).lexiclean().to_str().unwrap().to_owned())
+  let cleaned = Path::new(path).lexiclean();
+
+  // a path that cleans to nothing is the current directory
+  if cleaned.as_os_str().is_empty() && !path.is_empty() {
+    return Ok(".".into());
+  }
+
+  Ok(cleaned.to_str().unwrap().to_owned())
 }
 
 fn dir(name: &'static str, f: fn() -> Option<PathBuf>) -> FunctionResult {
